@@ -288,6 +288,25 @@ func (b *binder) bind1(v ssa.Value, d int) string {
 						}
 						for _, r2 := range *ia.Referrers() {
 							if st, ok := r2.(*ssa.Store); ok && st.Addr == ssa.Value(ia) {
+								// filled by a loop `arr[i] = f(i)` whose i visits every index: element k is f(k)
+								if _, storeConst := ia.Index.(*ssa.Const); !storeConst && isC && idxSubst[ia.Index] == 0 {
+									if n, isR := rangeIndexConst(ia.Index); (isR && k < n) || rangeIndexSeq(ia.Index) != nil {
+										saved := idxSubst
+										ns := map[ssa.Value]int64{}
+										for kk, vv := range saved {
+											ns[kk] = vv
+										}
+										ns[ia.Index] = k
+										idxSubst = ns
+										sub := b.withArgs(st.Parent(), nil) // a fresh memo: the same values read differently
+										sub.subst = b.subst
+										sub.inlineD = b.inlineD
+										sub.showBodies = b.showBodies
+										as = append(as, sub.bindD(st.Val, d+1))
+										idxSubst = saved
+										continue
+									}
+								}
 								as = append(as, b.bindD(st.Val, d+1))
 							}
 						}
@@ -1040,7 +1059,7 @@ func (b *binder) catPartsTop(v ssa.Value, d int) ([]string, bool) {
 			return nil, false
 		}
 	case *ssa.Call:
-		if calleeName(x) != "fmt.Sprintf" {
+		if n := calleeName(x); n != "fmt.Sprintf" && n != "strconv.FormatInt" && n != "strconv.Itoa" {
 			return nil, false
 		}
 	default:
@@ -1104,32 +1123,45 @@ func (b *binder) catParts(v ssa.Value, d int) ([]string, bool) {
 			return append(l, r...), true
 		}
 	case *ssa.Call:
+		switch calleeName(x) {
+		case "strconv.Itoa":
+			return []string{"dec(" + b.bindD(x.Call.Args[0], d+1) + ")"}, true
+		case "strconv.FormatInt":
+			if base, isK := constInt(x.Call.Args[1]); isK && base == 10 {
+				return []string{"dec(" + b.bindD(x.Call.Args[0], d+1) + ")"}, true
+			}
+			return nil, false
+		}
 		if calleeName(x) == "fmt.Sprintf" && len(x.Call.Args) == 2 {
 			format, ok := constString(x.Call.Args[0])
 			if !ok {
 				return nil, false
 			}
 			elems := variadicElems(x.Call.Args[1])
-			pieces := strings.Split(format, "%s")
-			if len(pieces) != len(elems)+1 {
-				return nil, false
-			}
-			for _, pc := range pieces {
-				if strings.Contains(pc, "%") {
+			// literal text interleaved with %s (strings, verbatim) and %d (integers, decimal)
+			var out []string
+			lit := ""
+			k := 0
+			for i := 0; i < len(format); i++ {
+				if format[i] != '%' {
+					lit += string(format[i])
+					continue
+				}
+				if i+1 >= len(format) || (format[i+1] != 's' && format[i+1] != 'd') || k >= len(elems) {
 					return nil, false
 				}
-			}
-			var out []string
-			for i, pc := range pieces {
-				if pc != "" {
-					out = append(out, "\x00lit:"+pc)
+				if lit != "" {
+					out = append(out, "\x00lit:"+lit)
+					lit = ""
 				}
-				if i < len(elems) {
-					ev := elems[i]
-					if mi, isMI := ev.(*ssa.MakeInterface); isMI {
-						ev = mi.X
-					}
-					if bt, isB := ev.Type().Underlying().(*types.Basic); !isB || bt.Info()&types.IsString == 0 {
+				ev := elems[k]
+				k++
+				if mi, isMI := ev.(*ssa.MakeInterface); isMI {
+					ev = mi.X
+				}
+				bt, isB := ev.Type().Underlying().(*types.Basic)
+				if format[i+1] == 's' {
+					if !isB || bt.Info()&types.IsString == 0 {
 						return nil, false
 					}
 					sub, ok := b.catParts(ev, d+1)
@@ -1137,7 +1169,19 @@ func (b *binder) catParts(v ssa.Value, d int) ([]string, bool) {
 						sub = b.spliceCat(b.bindD(ev, d+1))
 					}
 					out = append(out, sub...)
+				} else {
+					if !isB || bt.Info()&types.IsInteger == 0 {
+						return nil, false
+					}
+					out = append(out, "dec("+b.bindD(ev, d+1)+")")
 				}
+				i++
+			}
+			if k != len(elems) {
+				return nil, false
+			}
+			if lit != "" {
+				out = append(out, "\x00lit:"+lit)
 			}
 			return out, true
 		}
